@@ -52,8 +52,8 @@ def cmd(names, level, shorts=(), adjacent=False):
             "help": f"HELP-cmd-{names[0]}", "nchars": [list(n) for n in names]}
 
 
-def cmdtail(cmds, optional=False):
-    return {"kind": "cmd", "optional": optional, "cmds": list(cmds)}
+def cmdtail(cmds, optional=False, else_pos=()):
+    return {"kind": "cmd", "optional": optional, "cmds": list(cmds), "else_pos": list(else_pos)}
 
 
 def level(named, tail=NOTAIL, version=False, vtag="0", ftu=False):
@@ -567,6 +567,10 @@ def spell_family(seed, n, maxlen=2, budget=9000, vals=None):
                   words=("w",), eqvals=ev, clusters=(ctx in (1, 3)), clusters3=(ctx == 1 and i % 3 == 0))
         trim_to_budget(d, budget)
         out.append(d)
+    # a hidden flag is still a flag: it may be written inside a cluster
+    d = mkdef(f"sp{seed}_hidden", level([sw("f1", "-v"), sw("f2", "-c", hidden=True), ar("a0", "opt", "str", "-n")], NOTAIL),
+              maxlen=2, extras=(), spells=("sep", "glued"), words=("w",), eqvals=("1",), clusters=True)
+    out.append(d)
     return out
 
 
@@ -637,6 +641,8 @@ def decorate_for_help(d, rnd, hostile=None):
             for it in field_leaves(f):
                 it["help"] = f"HELP-{tag}-{it['id']}"
                 it["metavar"] = f"MV{n}{it['id'].upper()}"
+                if rnd.random() < 0.2:
+                    it["env"] = f"BPAFENV_{tag}_{it['id']}".upper().replace("-", "_")
             if f["kind"] in ("switch", "reqflag", "arg"):
                 r = rnd.random()
                 if r < 0.15:
@@ -696,3 +702,21 @@ def help_family(seed, n):
         d = mkdef(f"dup{seed}_{i}", level([sw("o1", "-v"), g1, g2] if i % 3 else [g2, g1]), maxlen=1)
         fam.append(d)
     return fam
+
+
+
+def cmd_or_pos_family(seed, n, maxlen=3, budget=5000):
+    """a choice between subcommands and a positional parser (C10: help after the command name wins)"""
+    rnd = random.Random(seed)
+    out = []
+    for i in range(n):
+        sub = level([sw("cs", "-j"), rf("cl", "opt", "--list")][: 1 + i % 2], postail(pos("cp", "opt")) if i % 3 == 0 else NOTAIL,
+                    version=(i % 4 == 1), vtag="s")
+        ep = pos("ep", ["many", "opt", "one", "some"][i % 4])
+        named = [sw("t0", "-v")] if i % 2 else []
+        lvl = level(named, cmdtail([cmd(["run", "r2"], sub)], optional=(i % 5 == 0), else_pos=[ep]), version=(i % 4 == 2))
+        d = mkdef(f"cop{seed}_{i}", lvl, maxlen=maxlen, extras=("help", "ver", "dd") if i % 2 else ("help", "unk"),
+                  spells=("sep",), words=("x",))
+        trim_to_budget(d, budget)
+        out.append(d)
+    return out
